@@ -235,17 +235,8 @@ func checkListingWriter(ctx *Ctx, roles *EmitterRoles, fn *ssa.Function, byType 
 		bytes []renderedByte
 		addrs []string
 	}
-	arms := map[uint64]*armData{}
-	for _, e := range renders {
-		t, ok := armOf(e.Guards)
-		if !ok {
-			continue
-		}
-		ad := arms[t]
-		if ad == nil {
-			ad = &armData{}
-			arms[t] = ad
-		}
+	// byteOf recognises a rendered byte of the target buffer and recovers its index term
+	collectInto := func(xip *absint.Interp, ad *armData, e RenderEvent) {
 		for _, v := range e.Vals {
 			iv, ok := v.(*absint.Int)
 			if !ok {
@@ -253,9 +244,8 @@ func checkListingWriter(ctx *Ctx, roles *EmitterRoles, fn *ssa.Function, byType 
 			}
 			k := iv.Lin.Key()
 			if iv.W == 8 && strings.Contains(k, "([a.code])[") {
-				// a byte of the target buffer: recover its index term
 				var idx *absint.Int
-				for _, d := range ip.Events {
+				for _, d := range xip.Events {
 					if d.Kind == "dyn-load" {
 						if di, ok := d.Args[0].(*absint.Int); ok && strings.HasSuffix(k, "["+di.Lin.Key()+"]") && strings.Contains(absint.ValKey(d.Args[1]), "a.code") {
 							idx = di
@@ -269,20 +259,144 @@ func checkListingWriter(ctx *Ctx, roles *EmitterRoles, fn *ssa.Function, byType 
 			}
 		}
 	}
-	_ = fAddr
-	var types_ []uint64
-	for t := range byType {
-		types_ = append(types_, t)
-	}
-	sort.Slice(types_, func(i, j int) bool { return types_[i] < types_[j] })
-	for _, t := range types_ {
-		rec := byType[t]
-		key := fmt.Sprintf("%s:line-type-%d(%s)", name, t, rec.Helper)
-		ad := arms[t]
-		if ad == nil {
-			R.Fail("record", key, pos, "the writer has no arm for this line type: its bytes never appear in the listing")
+	arms := map[uint64]*armData{}
+	for _, e := range renders {
+		t, ok := armOf(e.Guards)
+		if !ok {
 			continue
 		}
+		ad := arms[t]
+		if ad == nil {
+			ad = &armData{}
+			arms[t] = ad
+		}
+		collectInto(ip, ad, e)
+	}
+	var judgeFn func(xip *absint.Interp, ad *armData, rec lineRec) string
+	nExtent := 0
+	// singleLine interprets the writer on a listing of exactly one record of type t with byte count rec.K (other
+	// fields symbolic), every loop unrolled. Sound for the whole listing only if lines are rendered independently:
+	// the loop over the lines carries nothing but its index and the error from one line to the next.
+	singleLine := func(t uint64, rec lineRec) string {
+		for _, L := range loopsOf(fn) {
+			outer := true
+			for _, L2 := range loopsOf(fn) {
+				if L2 != L && L2.Body[L.Header] {
+					outer = false
+				}
+			}
+			if !outer {
+				continue
+			}
+			for _, in := range L.Header.Instrs {
+				ph, ok := in.(*ssa.Phi)
+				if !ok {
+					continue
+				}
+				if _, _, isInt := absint.IntType(ph.Type()); isInt {
+					continue
+				}
+				if ph.Type().String() == "error" {
+					continue
+				}
+				return "the loop over the lines carries " + ph.Comment + " from one line to the next"
+			}
+		}
+		xip := absint.New()
+		xip.UnrollLoops = true
+		xip.TraceDyn = true
+		var xr []RenderEvent
+		xip.Hooks.OverrideCall = func(ip *absint.Interp, st *absint.State, f *ssa.Function, a []absint.Val) (absint.Val, bool) {
+			if f.Pkg != nil && strings.HasSuffix(f.Pkg.Pkg.Path(), "/xbuf") && f.Signature.Recv() != nil {
+				xr = append(xr, RenderEvent{Sink: "xbuf." + f.Name(), Vals: a[1:], Guards: ip.PathGuards(st), Pos: ip.CurPos()})
+				if f.Signature.Results().Len() == 1 {
+					return a[0], true
+				}
+				return nil, true
+			}
+			return nil, false
+		}
+		nw := 0
+		xip.Hooks.UnknownCall = func(ip *absint.Interp, st *absint.State, ev *absint.Event) (absint.Val, bool) {
+			// w.Write: the caller's writer; its error result gets an identity so that the test on it can be followed both ways
+			nw++
+			if ci, ok := ev.Instr.(ssa.CallInstruction); ok {
+				if res := ci.Common().Signature().Results(); res.Len() == 2 {
+					return &absint.Tuple{E: []absint.Val{&absint.Top{T: res.At(0).Type(), Key: fmt.Sprintf("wn#%d", nw)}, &absint.Top{T: res.At(1).Type(), Key: fmt.Sprintf("werr#%d", nw)}}}, true
+				}
+			}
+			return nil, true
+		}
+		S := roles.Struct
+		xrecv := &absint.Ptr{Nil: absint.TriF, Obj: xip.SymObj("a", roles.Named), T: roles.Named}
+		st := &absint.State{Heap: absint.NewHeap(nil)}
+		lt := S.Field(roles.Lines).Type()
+		lv, _ := xip.Load(st, fieldPtr(xrecv, lt, roles.Lines), lt).(*absint.Slice)
+		if lv == nil {
+			return "cannot build a one-line listing"
+		}
+		one := *lv
+		one.Nil = absint.TriF
+		one.Off = absint.NewConst(64, 0, true)
+		one.Len = absint.NewConst(64, 1, true)
+		one.Cap = absint.NewConst(64, 1, true)
+		xip.Store(st, fieldPtr(xrecv, lt, roles.Lines), lt, &one)
+		ep := elemPtr(&one.Base, one.ElemT, 0)
+		tt, ct := lineS.Field(fType).Type(), lineS.Field(fCount).Type()
+		tw, _, _ := absint.IntType(tt)
+		cw, cs, _ := absint.IntType(ct)
+		xip.Store(st, fieldPtr(ep, tt, fType), tt, absint.NewConst(tw, t, false))
+		xip.Store(st, fieldPtr(ep, ct, fCount), ct, absint.NewConst(cw, uint64(rec.K), cs))
+		w := &absint.Iface{Dyn: types.NewPointer(types.NewNamed(types.NewTypeName(0, nil, "userWriter", nil), types.NewStruct(nil, nil), nil)), V: &absint.Top{Key: "w"}}
+		_, xout := xip.Call(fn, []absint.Val{xrecv, w}, nil, st)
+		for _, m := range xip.Imprec {
+			if !strings.Contains(m, "unmodelled external") && !strings.Contains(m, "invoke on unknown") {
+				return "not interpretable: " + m
+			}
+		}
+		if xout == nil {
+			return "the writer does not return for a one-line listing"
+		}
+		ad := &armData{}
+		for _, e := range xr {
+			collectInto(xip, ad, e)
+		}
+		if msg := judgeFn(xip, ad, rec); msg != "" {
+			return msg
+		}
+		// extent: with this record the last thing in a full buffer, a window of the target that reaches beyond the
+		// record's own bytes is a slice out of range - rendering the listing would panic
+		if len(ad.bytes) > 0 && ad.bytes[0].idx != nil {
+			first := ad.bytes[0].idx
+			for _, b := range ad.bytes {
+				if b.idx != nil {
+					if d, ok := xip.Ops.Sub(b.idx, first).IsConst(); ok && int64(d) < 0 {
+						first = b.idx
+					}
+				}
+			}
+			for _, ev := range xip.Events {
+				if ev.Kind != "slice-op" {
+					continue
+				}
+				src, rs := ev.Args[0].(*absint.Slice), ev.Args[1].(*absint.Slice)
+				if !strings.Contains(absint.ValKey(&src.Base), "a.code") || src.Off == nil || rs.Off == nil || rs.Len == nil {
+					continue
+				}
+				nExtent++
+				lo, okLo := xip.Ops.Sub(xip.Ops.Convert(rs.Off, first.W, true, first.Signed), first).IsConst()
+				ln, okLn := rs.Len.IsConst()
+				if !okLo || !okLn {
+					continue // a window not expressed relative to the record: not judged here
+				}
+				if int64(lo) < 0 || int64(lo)+int64(ln) > int64(rec.K) {
+					return fmt.Sprintf("takes code[record+%d : record+%d] while the record has %d byte(s): past the end of a full buffer this is out of range (at %s)", int64(lo), int64(lo)+int64(ln), rec.K, ctx.Prog.Pos(ev.Pos))
+				}
+			}
+		}
+		return ""
+	}
+	judge := func(xip *absint.Interp, ad *armData, rec lineRec) string {
 		// one rendering per consistent path (label arms branch on undefined labels)
 		sigs := map[string]map[string]bool{}
 		for _, b := range ad.bytes {
@@ -314,7 +428,7 @@ func checkListingWriter(ctx *Ctx, roles *EmitterRoles, fn *ssa.Function, byType 
 			// stands for the K bytes code[x+i], i = 0..K-1 (the loop test in force bounds i by
 			// the constant length of d)
 			if len(seq) == 1 && rec.K >= 1 && seq[0].idx != nil {
-				if exp, ok := expandLoopRender(ip, seq[0], rec.K); ok {
+				if exp, ok := expandLoopRender(xip, seq[0], rec.K); ok {
 					seq = exp
 				}
 			}
@@ -327,7 +441,7 @@ func checkListingWriter(ctx *Ctx, roles *EmitterRoles, fn *ssa.Function, byType 
 					msg = "a rendered byte has no identifiable index"
 					continue
 				}
-				want := ip.Ops.Add(seq[0].idx, absint.NewConst(seq[0].idx.W, uint64(j), true)).Lin.Key()
+				want := xip.Ops.Add(seq[0].idx, absint.NewConst(seq[0].idx.W, uint64(j), true)).Lin.Key()
 				if b.idx.Lin.Key() != want {
 					msg = fmt.Sprintf("byte %d rendered is code[%s], want code[%s]", j, b.idx.Lin.Key(), want)
 				}
@@ -343,6 +457,46 @@ func checkListingWriter(ctx *Ctx, roles *EmitterRoles, fn *ssa.Function, byType 
 		if name == "WriteTextTo" && len(ad.addrs) == 0 {
 			msg = "the text line does not show the record's address"
 		}
+		return msg
+	}
+	judgeFn = judge
+	_ = fAddr
+	var types_ []uint64
+	for t := range byType {
+		types_ = append(types_, t)
+	}
+	sort.Slice(types_, func(i, j int) bool { return types_[i] < types_[j] })
+	for _, t := range types_ {
+		rec := byType[t]
+		key := fmt.Sprintf("%s:line-type-%d(%s)", name, t, rec.Helper)
+		ad := arms[t]
+		if ad == nil {
+			if m2 := singleLine(t, rec); m2 == "" {
+				R.Pass("record", key, pos, fmt.Sprintf("renders code[address-base .. +%d) once, in order (one line of this type rendered with its loops unrolled)", rec.K))
+			} else {
+				R.Fail("record", key, pos, "the writer has no arm for this line type: its bytes never appear in the listing; one line alone: "+m2)
+			}
+			continue
+		}
+		msg := judge(ip, ad, rec)
+		if msg == "" {
+			// the extent of the windows taken is judged on one line alone (where that reading applies)
+			if m2 := singleLine(t, rec); strings.HasPrefix(m2, "takes code[") {
+				msg = m2
+				R.Fail("record", key, pos, msg)
+				continue
+			}
+		}
+		if msg != "" {
+			// merged arms, helpers looping over a slice whose length is the record's byte count: decide the same
+			// obligations on the rendering of one line of this very type and count
+			if m2 := singleLine(t, rec); m2 == "" {
+				R.Pass("record", key, pos, fmt.Sprintf("renders code[address-base .. +%d) once, in order (one line of this type rendered with its loops unrolled)", rec.K))
+				continue
+			} else {
+				msg += "; one line alone: " + m2
+			}
+		}
 		if msg != "" {
 			R.Fail("record", key, pos, msg)
 		} else {
@@ -350,6 +504,7 @@ func checkListingWriter(ctx *Ctx, roles *EmitterRoles, fn *ssa.Function, byType 
 		}
 	}
 	R.Count("writer-arms", len(arms))
+	R.Count("target-windows-judged:"+name, nExtent)
 }
 
 // expandLoopRender recognises a byte rendered at code[x + i] where i is the counter of a
